@@ -83,7 +83,12 @@ pub fn expr_into_metadatum(
 pub fn expr_into_utxo_refs(expr: &tir::Expression) -> Result<Vec<UtxoRef>, Error> {
     match expr {
         tir::Expression::UtxoRefs(x) => Ok(x.clone()),
-        tir::Expression::UtxoSet(x) => Ok(x.iter().map(|x| x.r#ref.clone()).collect()),
+        tir::Expression::UtxoSet(x) => {
+            // a hash set has no order of its own: don't let it reach the tx bytes
+            let mut refs: Vec<UtxoRef> = x.iter().map(|x| x.r#ref.clone()).collect();
+            refs.sort_by(|a, b| (&a.txid, a.index).cmp(&(&b.txid, b.index)));
+            Ok(refs)
+        }
         tir::Expression::String(x) => {
             let invalid = || Error::CoerceError(x.clone(), "UtxoRef".to_string());
 
